@@ -18,9 +18,15 @@ import (
 	"verifharness/internal/sx"
 )
 
-// FindingAmbiguousCT is the one open finding of C16 (class Entity.f62 in Lean): the only class that
-// excuses a failing read.
-const FindingAmbiguousCT = "F62"
+// FormerF62 names the finding repaired by 8b400b4 (class Entity.f62 in Lean: two registered keys with
+// different readers occur in the Content-Type; the reader used to depend on Go's map iteration
+// order, it now is the one of the key that occurs first).  Like F61 below: the class excuses
+// nothing, is computed on both sides and counted, and its former witness runs as a regression.
+// C16 has no open finding: no class excuses a failing read.
+const FormerF62 = "F62"
+
+// RepairF62 is the commit that repaired it.
+const RepairF62 = "8b400b4"
 
 // FormerF61 names the finding repaired by 75d0593 (class Entity.f61 in Lean: the declared coding's
 // stream breaks after a complete document).  The class excuses nothing: a failing read in it is a
@@ -292,10 +298,45 @@ func RunOne(h History) (*Case, error) {
 	return c, c.Fill(ans[0])
 }
 
-// ---- the Go side of the two classes (F62: open finding; F61: repaired, coverage only) ----
+// ---- the Go side of the two classes (both of repaired findings: coverage only) ----
 
-// accessors mirrors nothing of go-restful: it is the classifier of the finding classes (which
-// registered keys occur in the Content-Type), cross-checked against the Lean definition on every read.
+// selectedReader is the Go side of Lean's Entity.accessorsFor, for the class predicates only
+// (cross-checked against the Lean definition on every read): the reader of the exact key, else of
+// the registered key that occurs first in the value (the longest of those that start there), the
+// same for the default request content type when the Content-Type finds none.
+func selectedReader(cfg Cfg, ct string) []string {
+	at := func(m string) []string {
+		for _, e := range cfg.Registry {
+			if e[0] == m {
+				return []string{e[1]}
+			}
+		}
+		best, pos := -1, -1
+		for i, e := range cfg.Registry {
+			p := strings.Index(m, e[0])
+			if p < 0 {
+				continue
+			}
+			if best < 0 || p < pos || (p == pos && len(e[0]) > len(cfg.Registry[best][0])) {
+				best, pos = i, p
+			}
+		}
+		if best < 0 {
+			return nil
+		}
+		return []string{cfg.Registry[best][1]}
+	}
+	if a := at(ct); len(a) > 0 {
+		return a
+	}
+	if cfg.Default != "" {
+		return at(cfg.Default)
+	}
+	return nil
+}
+
+// accessors is the classifier of the former class F62 (which registered keys occur in the
+// Content-Type: every reader the lookup could answer with before 8b400b4, Lean: accessorAtAnyOrder).
 func accessors(cfg Cfg, ct string) []string {
 	at := func(m string) []string {
 		for _, e := range cfg.Registry {
@@ -332,7 +373,7 @@ func ClassF61(cfg Cfg, r ReadResult) bool {
 	if f.S.Clean() || !f.S.HdrOK {
 		return false
 	}
-	for _, k := range accessors(cfg, r.Read.CT) {
+	for _, k := range selectedReader(cfg, r.Read.CT) {
 		if (k == "json" && f.JDoc.OK) || (k == "xml" && f.XDoc.OK) {
 			return true
 		}
@@ -340,7 +381,8 @@ func ClassF61(cfg Cfg, r ReadResult) bool {
 	return false
 }
 
-// ClassF62: two registered keys with different readers occur in the Content-Type.
+// ClassF62 (class of the finding repaired by 8b400b4; excuses nothing): two registered keys with
+// different readers occur in the Content-Type.
 func ClassF62(cfg Cfg, r ReadResult) bool { return len(accessors(cfg, r.Read.CT)) > 1 }
 
 // ---- judging ----
@@ -368,12 +410,9 @@ func (c *Case) Judge() (issues []Issue, err error) {
 		if g61, g62 := ClassF61(c.H.Cfg, r), ClassF62(c.H.Cfg, r); g61 != r.F61 || g62 != r.F62 {
 			return nil, fmt.Errorf("class predicates disagree between Lean and Go on read %d: f61 %v/%v f62 %v/%v\n%s", i, r.F61, g61, r.F62, g62, c.Line)
 		}
-		// the only class that can excuse a failing read is the one of the open finding F62; the class
-		// of the repaired F61 (r.F61) is coverage information
+		// no class excuses a failing read: C16 has no open finding; the classes of the repaired F61 and
+		// F62 (r.F61, r.F62) are coverage information
 		known := ""
-		if r.F62 {
-			known = FindingAmbiguousCT
-		}
 		// finer agreement with the model is measured, not demanded (a refactoring may keep the property and change these)
 		c.Soft.Reads++
 		if contains(r.Model, r.Real.Key2()) {
@@ -386,20 +425,6 @@ func (c *Case) Judge() (issues []Issue, err error) {
 			c.Soft.ReaderObject++
 		}
 		if !r.S {
-			// a finding class explains only the clauses it is about, and only when the model predicts
-			// what happened; anything else that fails on such a read is a different violation
-			for j := 0; known != "" && j < 6; j++ {
-				// clause j may fail only if the class is about it:
-				// F62: round trip (1), broken syntax (3), history independence (4) — never broken coding (2):
-				// whichever reader the map iteration picks, a broken stream yields an error
-				excused := r.F62 && (j == 1 || j == 3 || j == 4)
-				if r.Clauses[j] == '0' && !excused {
-					known = ""
-				}
-			}
-			if known != "" && !contains(projAll(r.Model), proj(r.Real.Key2())) {
-				known = ""
-			}
 			issues = append(issues, Issue{Index: i, Kind: "spec", Known: known, What: c.specReason(r)})
 			continue
 		}
@@ -462,7 +487,7 @@ func Human(c *Case) map[string]interface{} {
 			"value_written": Canon(r.Read.Val.V), "target": fmt.Sprintf("%T", r.Read.Val.NewTarget()), "value_type": r.Read.Val.Type,
 			"kind": r.Read.Kind, "faithful": r.Read.Faithful, "written_hex": hex.EncodeToString(r.Read.Written),
 			"real": r.Real.Key() + " " + r.Real.Detail, "real_ledger": r.Real.Events, "alone_on_fresh_provider": r.Alone.Key(),
-			"model": r.ModelRaw, "model_path": r.Tag, "predicate": r.S, "class_of_repaired_F61": r.F61, "class_F62": r.F62,
+			"model": r.ModelRaw, "model_path": r.Tag, "predicate": r.S, "class_of_repaired_F61": r.F61, "class_of_repaired_F62": r.F62,
 		})
 	}
 	return map[string]interface{}{"provider": fmt.Sprintf("%s cap=%d", c.H.Cfg.Provider, c.H.Cfg.Cap), "provider_kind": c.H.Cfg.Provider, "provider_capacity": c.H.Cfg.Cap, "default_request_content_type": c.H.Cfg.Default,
@@ -646,48 +671,6 @@ func reportMismatch(run *report.Run, c *Case, seed uint64, extras bool) {
 		Case: []string{o.Line}, Human: Human(o), Model: o.Answer, Real: realSummary(o)})
 }
 
-// Witnesses replays the witness of the open finding F62 on the real code (deterministic input).  (The
-// former witness of F61 is a regression now: checkRegressions.)
-func Witnesses(run *report.Run) error {
-	// F62: a faithful XML body under `application/xml; x="application/json"`: which reader is chosen varies from read to read (map iteration order)
-	xv := Value{Type: "flat", V: Flat{I64: 5, S: "x"}, NewTarget: func() interface{} { return &Flat{} }, Deep: true, XMLOK: true}
-	xw, xct, err := Write("xml", xv.V, false, "WriteEntity")
-	if err != nil {
-		return err
-	}
-	xrd := Read{Kind: "xml", Val: xv, API: "WriteEntity", BaseCT: xct, Status: "good", CT: xct + `; x="` + mimeJSON + `"`, CE: "", Written: xw, Body: xw, Faithful: true}
-	h := History{Cfg: Cfg{Provider: "sync", Registry: BuiltinRegistry()}}
-	for k := 0; k < 12; k++ {
-		h.Reads = append(h.Reads, xrd)
-	}
-	failed, tries := 0, 0
-	var last *Case
-	for ; tries < 40 && failed == 0; tries++ {
-		c, err := RunOne(h)
-		if err != nil {
-			return err
-		}
-		last = c
-		is, err := c.Judge()
-		if err != nil {
-			return err
-		}
-		for _, i := range is {
-			if i.Kind == "spec" && i.Known == FindingAmbiguousCT {
-				failed++
-			} else if i.Known == "" {
-				return fmt.Errorf("F62 witness: unexpected issue %v", i)
-			}
-		}
-	}
-	if failed > 0 {
-		run.KnownHits[FindingAmbiguousCT]++
-	}
-	run.Extra["F62_witness"] = map[string]interface{}{"content_type": xrd.CT, "body": string(xw), "still_fails": failed > 0, "histories_of_12_reads_tried": tries,
-		"case": last.Line, "model": last.Answer, "real": realSummary(last), "request": Human(last)}
-	return nil
-}
-
 // Check is the C16 check: nReads real reads in histories of 1–12, the last third with extra registry keys.
 func Check(run *report.Run, nReads int) error {
 	defer Restore()
@@ -696,11 +679,12 @@ func Check(run *report.Run, nReads int) error {
 	if err := checkRegressions(run); err != nil {
 		return err
 	}
-	if err := Witnesses(run); err != nil {
+	if err := checkRegressionsF62(run); err != nil {
 		return err
 	}
-	// how often the stream visits the class of the repaired finding F61, and with what around it
+	// how often the stream visits the classes of the repaired findings F61 and F62, and with what around it
 	former := map[string]int{}
+	former62 := map[string]int{}
 	base := rng.New(run.Seed*1000003 + 16)
 	specReported, mismatchReported := 0, 0
 	histories, reads, idx := 0, 0, uint64(0)
@@ -781,6 +765,19 @@ func Check(run *report.Run, nReads int) error {
 						former["later-faithful-gzip-reads-on-the-same-provider"]++
 					}
 				}
+				if r.F62 {
+					// class of the repaired finding F62: counted, never excused
+					former62["reads"]++
+					former62["written-by:"+r.Read.Kind]++
+					former62["answered:"+r.Real.Class]++
+					if r.Read.Faithful {
+						former62["faithful"]++
+						if r.Real.Class == "ok" {
+							former62["faithful-read-back-equal"]++
+						}
+					}
+					run.Count("former-F62-class")
+				}
 				run.Evaluations++
 				run.Count("path:" + r.Tag)
 				run.Count("body:" + r.Read.Status)
@@ -845,10 +842,9 @@ func Check(run *report.Run, nReads int) error {
 	run.Extra["reads_alone_on_fresh_provider"] = reads
 	run.Extra["xml_characters_replaced_by_generator"] = ExcludedForXML
 	run.Extra["strings_that_look_like_escape_syntax"] = EscapeLikeStrings
-	run.Extra["proposed_findings"] = map[string]string{
-		FindingAmbiguousCT: "class Entity.f62: two registered keys with different readers are substrings of the Content-Type — the reader depends on Go map iteration order",
-	}
 	run.Extra["repaired_findings"] = map[string]interface{}{
+		FormerF62:                 "class Entity.f62 (two registered keys with different readers occur in the Content-Type): repaired by " + RepairF62 + " — the reader is the one of the key that occurs first, whatever the iteration order of the registry map; the class excuses nothing, its former witness runs as a regression (distribution: regression-F62-…, replays/F62.json:…), and the stream's visits to it are counted below",
+		"former_F62_class_visits": former62,
 		FormerF61:                 "class Entity.f61 (the declared coding's stream breaks after a complete document was delivered): repaired by " + RepairF61 + "; the class excuses nothing, its former witnesses run as regressions (distribution: regression-F61-…, replays/F61.json:…), and the stream's visits to it are counted below",
 		"former_F61_class_visits": former,
 	}
@@ -860,6 +856,11 @@ func Check(run *report.Run, nReads int) error {
 		if former["reads"] < floor || former["gzip"] < each || former["deflate"] < each || former["answered:err"] == 0 {
 			return fmt.Errorf("the stream hardly visits the class of the repaired finding F61 (%d of %d reads: gzip %d, deflate %d; at least %d, %d, %d expected): a regression there would go unnoticed",
 				former["reads"], reads, former["gzip"], former["deflate"], floor, each, each)
+		}
+		// measured over seeds 1–4 at 4000 reads: see the report; the floor is a small fraction of that
+		if former62["reads"] < nReads/400 || former62["faithful-read-back-equal"] == 0 {
+			return fmt.Errorf("the stream hardly visits the class of the repaired finding F62 (%d of %d reads, %d of them faithful bodies read back equal): a regression there would go unnoticed",
+				former62["reads"], reads, former62["faithful-read-back-equal"])
 		}
 	}
 	return nil
